@@ -6,6 +6,7 @@
    behaviour is the sequence of the stages' operations (hist).  Each emitted step carries
       s, pc          the stage and the index of the operation in its script
       k, v, r        the operation and the outcome the specification prescribes (as in the trace events)
+      rg             after a failed WriteString: the value of the link's readerGone flag ("t"); "u" otherwise
       det            FALSE iff both arms of valueOutput.Put's select were ready (room and sendStop closed):
                      the Go runtime chooses, either outcome is a behaviour, the replay stops comparing there
       early          TRUE iff the operation was blocked (no outcome enabled) until the immediately preceding
@@ -46,13 +47,14 @@ GInit == (\E x \in GTuples : InitWith(x)) /\ hist = <<>> /\ enPrev = <<>> /\ las
 GStep == \E s \in Stages :
            /\ Visible(s)
            /\ hist' = Append(hist, [s |-> s, pc |-> sg[s].pc, k |-> sg'[s].last.k, v |-> sg'[s].last.v, r |-> sg'[s].last.r,
+                                    rg |-> IF sg'[s].last.k = "putb" /\ sg'[s].last.r = "gone" THEN (IF lk[s].readerGone THEN "t" ELSE "f") ELSE "u",
                                     det |-> Det(s),
                                     early |-> (lastS # s /\ lastS # 0 /\ ~enPrev[s])])
            /\ enPrev' = [t \in Stages |-> OpEnabled(t)]
            /\ lastS' = s
 GNext == IF \E s \in Stages : Exiting(s)
            THEN (LET s == CHOOSE t \in Stages : Exiting(t) IN ExitStep(s)) /\ UNCHANGED <<hist, enPrev, lastS>>
-           ELSE GStep \/ ((Wait \/ Compose) /\ UNCHANGED <<hist, enPrev, lastS>>) \/ (Final /\ UNCHANGED gvars)
+           ELSE GStep \/ ((Wait \/ Compose) /\ UNCHANGED <<hist, enPrev, lastS>>)   \* ends (no successor) in Final
 GSpec == GInit /\ [][GNext]_gvars
 Emit == Final => PrintT(ToJson([scripts |-> Scripts, steps |-> hist, res |-> result.excs,
                                 outv |-> gh.sentV[N], outb |-> gh.sentB[N]]))
